@@ -247,11 +247,28 @@ def run_scenario(case: dict[str, Any], ctx: Ctx) -> None:
     n = one({})
     limit = case.get("limit_quick", 50 if "sqlite" in case["layout"] else 90) if ctx.tier == "quick" else 100000
     pts = conc.switch_points(n, len(case["workers"]), limit, case["salt"])
-    for p in pts:
-        one(p)
+    n_all = n * (len(case["workers"]) - 1)
+    if "sqlite" in case["layout"] and ctx.tier == "quick":
+        # every preemption next to an SQL statement / commit (those decide what the other
+        # connection sees), then the thinner stride over all source lines
+        sqlp = conc.sql_switch_points(n, len(case["workers"]), 36, case["salt"])
+        pts = sqlp + [p for p in pts if p not in sqlp][:12]
+        ctx.event("sql_boundary_preemptions", len(sqlp))
+    # quick tier: a generated scenario gets at most 45 s (a 3-worker scenario on SQLite with a
+    # model-based sampler costs seconds per schedule); what was not run is counted
+    import time as _time
+
+    t_end = _time.monotonic() + (45.0 if ctx.tier == "quick" and "limit_quick" not in case else 1e9)
+    done = 0
     for sched_ in case["multi"]:
         one({min(int(f * n), n - 1): c for f, c in sched_})
-    ctx.event("scenarios_all_single_preemptions" if len(pts) == n * (len(case["workers"]) - 1) else "scenarios_sampled")
+    for p in pts:
+        if _time.monotonic() > t_end:
+            ctx.event("schedules_not_run_time_cap", len(pts) - done)
+            break
+        one(p)
+        done += 1
+    ctx.event("scenarios_all_single_preemptions" if len(pts) == n_all else "scenarios_sampled")
     ctx.event("yield_points", n)
 
 
